@@ -374,11 +374,8 @@ impl CommandAnalyzer {
                 .strip_prefix("Result<")
                 .and_then(|s| s.strip_suffix(">"))
             {
-                if let Some(comma_pos) = inner.find(',') {
-                    let ok_type = inner[..comma_pos].trim();
-                    let err_type = inner[comma_pos + 1..].trim();
-                    self.extract_type_names_recursive(ok_type, type_names);
-                    self.extract_type_names_recursive(err_type, type_names);
+                for part in type_resolver::split_top_level_commas(inner) {
+                    self.extract_type_names_recursive(part.trim(), type_names);
                 }
             }
             return;
@@ -417,11 +414,8 @@ impl CommandAnalyzer {
                 .strip_prefix(prefix)
                 .and_then(|s| s.strip_suffix(">"))
             {
-                if let Some(comma_pos) = inner.find(',') {
-                    let key_type = inner[..comma_pos].trim();
-                    let value_type = inner[comma_pos + 1..].trim();
-                    self.extract_type_names_recursive(key_type, type_names);
-                    self.extract_type_names_recursive(value_type, type_names);
+                for part in type_resolver::split_top_level_commas(inner) {
+                    self.extract_type_names_recursive(part.trim(), type_names);
                 }
             }
             return;
@@ -446,7 +440,7 @@ impl CommandAnalyzer {
         // Handle tuple types like (T, U, V)
         if rust_type.starts_with('(') && rust_type.ends_with(')') && rust_type != "()" {
             let inner = &rust_type[1..rust_type.len() - 1];
-            for part in inner.split(',') {
+            for part in type_resolver::split_top_level_commas(inner) {
                 self.extract_type_names_recursive(part.trim(), type_names);
             }
             return;
